@@ -2318,6 +2318,16 @@ def check_C05(ctx):
 # --------------------------------------------------------------------------------------------------
 # C07: position replay and notation
 
+TWO_RANK_STEPS = [
+    ("4k3/8/8/8/2p5/8/3R4/4K3 w - - 0 1", ["d2d4", "e8e7"]), ("4k3/8/8/8/2p5/8/3Q4/4K3 w - - 0 1", ["d2d4", "e8e7"]),
+    ("4k3/8/8/8/2p5/8/1B6/4K3 w - - 0 1", ["b2d4", "e8e7"]), ("4k3/8/8/8/2p5/8/1Q6/4K3 w - - 0 1", ["b2d4", "e8e7"]),
+    ("4k3/8/8/8/1p6/8/3N4/4K3 w - - 0 1", ["d2c4", "e8e7"]), ("4k3/8/8/8/2p5/8/3P4/4K3 w - - 0 1", ["d2d3", "e8e7", "d3d4", "e7e8"]),
+    ("4k3/8/8/8/2p5/8/3P4/4K3 w - - 0 1", ["d2d4", "c4d3"]), ("4k3/8/8/8/2p1p3/8/3P4/4K3 w - - 0 1", ["d2d4", "e4d3"]),
+    ("4k3/8/8/8/1p6/8/R7/4K3 w - - 0 1", ["a2a4", "e8e7"]), ("4k3/8/8/8/6p1/8/7R/4K3 w - - 0 1", ["h2h4", "e8e7"]),
+    ("r3k2r/8/8/8/1p4p1/8/R6R/4K3 w kq - 0 1", ["a2a4", "e8g8", "h2h4", "f8e8"]),
+]
+
+
 def check_C07(ctx):
     rng = ctx.rng
     suite = gens.suite_fens()
@@ -2327,6 +2337,12 @@ def check_C07(ctx):
     pl = gens.playouts(rng, [START_FEN] * 6 + [KIWI_FEN] * 2 + suite[:20] + con, games, plies)
     for st, mvs in gens.critical_games()[: ctx.size(10, 200)]:
         pl.append((st, [(m, None) for m in mvs]))
+    # every kind of man stepping from its side's second rank to the fourth (straight, diagonal, knight jump, two
+    # single pawn steps) next to an enemy pawn: only a pawn's double step creates an en passant target
+    for st, mvs in TWO_RANK_STEPS:
+        for k in range(1, len(mvs) + 1):      # every prefix: the position right after the step is compared too
+            pl.append((st, [(m, None) for m in mvs[:k]]))
+            pl.append((gens.mirror_fen(st), [(gens.mirror_move(m), None) for m in mvs[:k]]))
     ops, sops, meta = [], [], []
     for fen, steps in pl:
         if not steps:
@@ -3684,7 +3700,7 @@ def with_trace(fn, nq, nt):
 
 CHECKS = {
     "C01": {"fn": check_C01, "rule": "positions from the suite FENs, targeted families, spec playouts, constructive placements (promoted material, castling/ep fields), one-piece mutations and colour mirrors, all filtered by Spec.Legal; a case is non-trivial if the position has at least one legal move; distinct by FEN"},
-    "C02": {"fn": lambda ctx: (check_C02(ctx), stopped_search_position_check(ctx, ctx.size(10, 300))), "rule": "biased random playouts of the Lean specification from start/suite/targeted/constructive positions; engine PushMove/PopMove snapshots vs model vs Spec.apply at every ply; distinct by (start, first 40 moves)"},
+    "C02": {"fn": lambda ctx: (check_C02(ctx), stopped_search_position_check(ctx, ctx.size(10, 300)), check_C07(ctx)), "rule": "moves played through the command path as well (`position ... moves`, the replay check of C07); biased random playouts of the Lean specification from start/suite/targeted/constructive positions; engine PushMove/PopMove snapshots vs model vs Spec.apply at every ply; distinct by (start, first 40 moves)"},
     "C06": {"fn": check_C06, "rule": "same position pool as C01; tactical list, tactical flag, both counters vs specification; Perft/PerftTactical depth 2-4 vs Spec.paths; UCI perft/tperft divide text for n=1,2; non-trivial if the position has a tactical move"},
     "C09": {"fn": check_C09, "rule": "attack rows: one attacker (12 kinds) on any square, optional single blocker on any other square, all 64 targets per row (sampled in quick, exhaustive otherwise) plus attacked-square maps of full positions; distinct by placement"},
     "C03": {"fn": with_trace(check_C03, 16, 200), "rule": "legal non-terminal positions (by FEN and by move list) x go forms (depth, movetime incl. 1 ms, clocks incl. 1 ms and negative, movestogo, infinite+stop at several delays, bare go); one case = (position, form); count of bestmove lines and legality per Spec.legalMoves"},
